@@ -133,6 +133,9 @@ func init() {
 			if s, ok, err := mixReplay(raw); ok {
 				return s, err
 			}
+			if s, ok, err := mixChainReplay(raw); ok {
+				return s, err
+			}
 			var r c03Replay
 			json.Unmarshal(raw, &r)
 			res := safeDecode(bytes.NewReader(vx.UnHex(r.Hex)))
@@ -256,6 +259,7 @@ func runC03(w *vx.W) {
 		mixLen = 4
 	}
 	mixFamily(w, mixLen)
+	c10MixChains(w) // the same words as members of a chain: values and routing must not depend on an earlier member
 	alpha := c03Alphabet()
 	// the further file_id symbol is the known message 0 entry itself (first in list)
 	maxLen := 2
